@@ -818,6 +818,23 @@ fn c05(ctx: &BoardCtx, p: &Pos, fen: &str, b: &mut Bitboard) {
         }
         b.unmake(mv);
     }
+    // the board's own "has the side to move any legal move" predicate (what the SAN suffix and the
+    // search's horizon ask) on the full pseudo-legal list
+    {
+        let any = b.is_any_move_legal(&pseudo);
+        if any == ref_legal.is_empty() {
+            ctx.viol(format!("is_any_move_legal:expected_{}", !ref_legal.is_empty()), fen, json!({"expected": !ref_legal.is_empty(), "actual": any, "legal_moves": ref_legal.iter().map(|m| m.uci()).collect::<Vec<_>>()}));
+        }
+        if !ref_legal.is_empty() && ref_legal.iter().all(|m| m.piece == PAWN && (m.from as i32 - m.to as i32).abs() == 16) {
+            *local.entry("states_whose_only_legal_moves_are_double_pawn_steps").or_insert(0) += 1;
+        }
+        if !ref_legal.is_empty() && ref_legal.iter().all(|m| m.is_ep) {
+            *local.entry("states_whose_only_legal_moves_are_en_passant_captures").or_insert(0) += 1;
+        }
+        if !ref_legal.is_empty() && ref_legal.iter().all(|m| m.promo != 0) {
+            *local.entry("states_whose_only_legal_moves_are_promotions").or_insert(0) += 1;
+        }
+    }
     // moveless <=> mate or stalemate
     match board_from_pos(p) {
         Ok(mut nb) => {
